@@ -67,7 +67,16 @@ def run_isolating(ctx, op, reqs, on_death, **kw):
             if d.done:
                 out[start:start + d.done] = run_batch(ctx, op, reqs[start:start + d.done], **kw)
             bad = start + d.done
-            out[bad] = {"id": reqs[bad].get("id"), "died": True, "stderr": d.stderr[-500:], "rc": d.rc}
+            out[bad] = {"id": reqs[bad].get("id"), "died": True, "stderr": d.stderr[-500:], "rc": d.rc,
+                        "timeout": d.rc == -9 and "TIMEOUT" in d.stderr}
             on_death(reqs[bad], d)
             start = bad + 1
     return out
+
+
+def timed_out(ctx, rep, what=""):
+    """A worker killed by the harness's own wall-clock watchdog says nothing about the code: inconclusive, never a verdict."""
+    if isinstance(rep, dict) and rep.get("timeout"):
+        ctx.inconcl("worker watchdog fired %s" % what)
+        return True
+    return False
